@@ -340,6 +340,40 @@ fn run_agg_positions_wide(plan: &Plan, lib: &dyn Lib, rec: &mut Rec) {
         rec.fault("byz-identity");
         rec.expect("C04", "identity-or-zero-never-accepted", !success(&out), || format!("AggregateSignature::verify identity-key-at-index-{} kind={} scheme={} g={} | a valid aggregate list with an identity public key appended as entry {} was accepted", n, kind, scheme_name(scheme), g.name(), n + 1));
     }
+    // MANY identity keys in one list (a count, a flag byte or a bitmap of offenders that wraps): 2, 255, 256, 257 and 512
+    // identity entries among a few honest pairs whose aggregate is valid for the honest entries — at the end, at the start
+    // and interleaved; with the identity entries' own message and with the honest message
+    if n <= 300 {
+        let honest = 1 + (plan.seed % 3) as usize;
+        let agg_h = refimpl::layout::tagged(scheme, &sp.mul(&refimpl::scalar_from_u64(honest as u64)).to_bytes());
+        let idm = b"identity entry with its own message".to_vec();
+        for count in [2usize, 255, 256, 257, 512] {
+            for layout in 0..3 {
+                let mut a: Vec<&[u8]> = Vec::with_capacity(2 * (count + honest) + 1);
+                a.push(&agg_h);
+                let (hpk, hm): (&[u8], &[u8]) = (&p.pk, &m);
+                fn push_h<'a>(a: &mut Vec<&'a [u8]>, pk: &'a [u8], m: &'a [u8]) { a.push(pk); a.push(m); }
+                match layout {
+                    0 => { for _ in 0..honest { push_h(&mut a, hpk, hm); } for _ in 0..count { a.push(&id_pk); a.push(&idm); } }
+                    1 => { for _ in 0..count { a.push(&id_pk); a.push(&m); } for _ in 0..honest { push_h(&mut a, hpk, hm); } }
+                    _ => {
+                        let step = count / honest.max(1) + 1;
+                        let mut placed = 0;
+                        for i in 0..count {
+                            if i % step == 0 && placed < honest { push_h(&mut a, hpk, hm); placed += 1; }
+                            a.push(&id_pk);
+                            a.push(&idm);
+                        }
+                        while placed < honest { push_h(&mut a, hpk, hm); placed += 1; }
+                    }
+                }
+                let out = rec.call(lib, g, Op::AggVerify, &a);
+                rec.case(&[4, g as u64, scheme as u64, count as u64, layout as u64, 79], true);
+                rec.fault("byz-identity");
+                rec.expect("C04", "identity-or-zero-never-accepted", !success(&out), || format!("AggregateSignature::verify {}-identity-keys layout={} scheme={} g={} | a list of {} honest pairs (aggregate valid for them) and {} identity public keys was accepted", count, layout, scheme_name(scheme), g.name(), honest, count));
+            }
+        }
+    }
     rec.sample(|| format!("scheme={} g={} identity key at index {} of a list of equal pairs", scheme_name(scheme), g.name(), n));
 }
 
